@@ -50,7 +50,8 @@ def run(ctx):
     ctx.count("spec_selfcheck_cases", S.selfcheck() + PK.selfcheck())
     ctx.rule = ("case = (model: 1-3 partition-key columns drawn from 18 scalar column classes + Tuple + UserDefinedType, 0-2 clustering keys, "
                 "value columns, shuffled declaration order, db_field renames, optional model hierarchy (abstract or concrete base; subclass "
-                "re-declaring inherited key columns with the same or another column class, adding key/value columns), "
+                "re-declaring inherited key columns with the same or another column class, adding key/value columns; or columns spread over 2-3 "
+                "abstract bases defined in one order and listed in another, column objects instantiated in a third), "
                 "__compute_routing_key__ on/off; operation in {create, save, save-with-null, instance update, instance delete, get, first, "
                 "list+limit/allow_filtering, chained filters in any keyword order, queryset update, queryset delete, ttl create | partial "
                 "key, IN on a key column, clustering-only filter, unfiltered scan}; key values from the boundary pools); distinct by "
@@ -149,7 +150,9 @@ def run(ctx):
         nck = rng.choice([0, 1, 1, 2])
         slots = [('p', i) for i in range(npk)] + [('c', i) for i in range(nck)] + [('v', i) for i in range(rng.randint(1, 2))]
         rng.shuffle(slots)
-        sp.inherit = rng.random() < 0.35
+        shape = rng.random()
+        sp.inherit = shape < 0.3                  # one base + a subclass re-declaring / adding columns
+        sp.mixins = 0.3 <= shape < 0.5            # columns spread over several abstract bases listed in any order
         sp.compute = rng.random() > 0.06
         cols = []           # (attr name, kind, spec type, column)
         names = {'p': ['pa', 'pb', 'pc'], 'c': ['ca', 'cb'], 'v': ['va', 'vb']}
@@ -162,7 +165,7 @@ def run(ctx):
             if kind == 'p':
                 t = gen_key_type()
                 kw['partition_key'] = True
-                if npk == 1 and rng.random() < 0.5:
+                if npk == 1 and not sp.mixins and rng.random() < 0.5:
                     kw = dict((a, b) for a, b in kw.items() if a != 'partition_key')
                     kw['primary_key'] = True          # first primary key = the partition key
             elif kind == 'c':
@@ -228,9 +231,47 @@ def run(ctx):
                 attrs['cz'] = cols[-1][3]
             attrs['vz'] = C.Integer()
             model = type('M38_%d' % mid, (base,), attrs)
-        else:
+        elif sp.mixins:
+            # the columns are spread over 2-3 abstract bases (mixins) and the model itself; the bases are DEFINED in one order and
+            # LISTED in the class statement in another; column objects are instantiated either base by base or all up front in yet
+            # another order.  Clustering columns live where a partition-key column lives (or in the model), so that no base turns
+            # its first primary key into a partition key.
+            nb = rng.randint(2, 3)
+            home = {}
             for c in cols:
+                home[c[0]] = rng.randrange(nb) if c[1] == 'p' else (rng.randrange(-1, nb) if c[1] == 'v' else None)
+            with_p = sorted(set(home[c[0]] for c in cols if c[1] == 'p'))
+            for c in cols:
+                if c[1] == 'c':
+                    home[c[0]] = rng.choice(with_p + [-1])
+            per_base = rng.random() < 0.5
+            if not per_base:
+                order = list(cols)
+                rng.shuffle(order)
+                for c in order:
+                    c[3] = make_column(c[2], **c[4])           # creation order unrelated to where the column is declared
+            bases = []
+            for b in range(nb):
+                battrs = {'__abstract__': True}
+                mine = [c for c in cols if home[c[0]] == b]
+                rng.shuffle(mine)
+                for c in mine:
+                    if per_base:
+                        c[3] = make_column(c[2], **c[4])
+                    battrs[c[0]] = c[3]
+                bases.append(type('X38_%d_%d' % (mid, b), (models.Model,), battrs))
+            own = [c for c in cols if home[c[0]] == -1]
+            for c in own:
+                if per_base:
+                    c[3] = make_column(c[2], **c[4])
                 attrs[c[0]] = c[3]
+            attrs['vz'] = C.Integer()
+            rng.shuffle(bases)
+            model = type('M38_%d' % mid, tuple(bases), attrs)
+        else:
+            items = [(c[0], c[3]) for c in cols]
+            rng.shuffle(items)                 # the order of the class body is irrelevant: columns are ordered by instantiation
+            attrs.update(items)
             model = type('M38_%d' % mid, (models.Model,), attrs)
         sp.model = model
         sp.cols = dict((c[0], c) for c in cols)
@@ -305,6 +346,14 @@ def run(ctx):
                     ctx.count("models_npk_%d" % len(sp.pk))
                     if sp.inherit:
                         ctx.count("models_inheriting_from_a_base_model")
+                    if sp.mixins:
+                        ctx.count("models_with_columns_from_several_abstract_bases")
+                        if len(sp.pk) > 1:
+                            ctx.count("models_with_composite_key_from_several_abstract_bases")
+                    if len(sp.pk) > 1:
+                        created = [sp.cols[n][3].position for n in sp.pk]
+                        if created != sorted(created):
+                            ctx.count("models_whose_table_key_order_differs_from_column_creation_order")
                     if sp.redeclared:
                         ctx.count("models_with_overridden_key_column")
                     if sp.retyped:
@@ -554,7 +603,8 @@ def run(ctx):
 
     ctx.floor_distinct = 1500 if ctx.quick else 40000
     fl = {"routing_keys_equal": 2000, "routing_keys_composite": 1000, "routing_keys_single": 300, "unrouted_statements_without_key": 300,
-          "models_with_overridden_key_column": 20, "routing_keys_composite_with_component_of_32768_to_65535_bytes": 10, "models_with_inherited_key_column_redeclared_with_another_type": 20,
+          "models_with_overridden_key_column": 20, "models_with_composite_key_from_several_abstract_bases": 40,
+          "models_whose_table_key_order_differs_from_column_creation_order": 20, "routing_keys_composite_with_component_of_32768_to_65535_bytes": 10, "models_with_inherited_key_column_redeclared_with_another_type": 20,
           "models_with_key_column_added_by_the_subclass": 10, "models_with_concrete_base": 10, "models_inheriting_keys_without_redeclaring": 10, "models_npk_1": 30, "models_npk_2": 30, "models_npk_3": 30, "histories": 3}
     for op in ('create', 'save', 'save_null', 'update', 'delete', 'get', 'model_get', 'first', 'list', 'chained', 'qs_update', 'qs_delete', 'ttl_create'):
         fl["routing_keys_equal:" + op] = 30
